@@ -175,11 +175,16 @@ def build_pptx(spec) -> bytes:
     ct = CT_HEAD + ('<Override PartName="/ppt/presentation.xml" ContentType="application/vnd.openxmlformats-officedocument.'
                     'presentationml.presentation.main+xml"/>')
     prels, ids = [], []
-    for n, unit in enumerate(spec["units"], 1):
+    nslides = len(spec["units"])
+    sfiles = spec.get("slide_files") or list(range(1, nslides + 1))       # file number of the n-th slide
+    srids = spec.get("slide_rids") or [f"rId{j + 1}" for j in range(nslides)]
+    sids = spec.get("slide_ids") or [256 + j for j in range(nslides)]
+    for pos, unit in enumerate(spec["units"], 1):
+        n = sfiles[pos - 1]
         ct += (f'<Override PartName="/ppt/slides/slide{n}.xml" ContentType="application/vnd.openxmlformats-officedocument.'
                'presentationml.slide+xml"/>')
-        prels.append((f"rId{n}", REL + "/slide", f"slides/slide{n}.xml", ""))
-        ids.append(f'<p:sldId id="{255 + n}" r:id="rId{n}"/>')
+        prels.append((srids[pos - 1], REL + "/slide", f"slides/slide{n}.xml", ""))
+        ids.append(f'<p:sldId id="{sids[pos - 1]}" r:id="{srids[pos - 1]}"/>')
         pics, rels, seen = [], [], set()
         for k, pl in enumerate(unit, 1):
             # shapes are laid out top to bottom in document order (the extractor sorts by position)
@@ -195,6 +200,8 @@ def build_pptx(spec) -> bytes:
                  + "".join(pics) + '</p:spTree></p:cSld></p:sld>')
         members.append((f"ppt/slides/slide{n}.xml", slide.encode()))
         members.append((f"ppt/slides/_rels/slide{n}.xml.rels", _rels(rels)))
+    if spec.get("pres_rels_reversed"):
+        prels.reverse()
     pres = (f'<?xml version="1.0" encoding="UTF-8" standalone="yes"?><p:presentation xmlns:p="{P}" xmlns:r="{REL}">'
             '<p:sldIdLst>' + "".join(ids) + '</p:sldIdLst></p:presentation>')
     members = [("[Content_Types].xml", (ct + "</Types>").encode()),
@@ -235,8 +242,10 @@ def build_xlsx(spec) -> bytes:
         f = files[i]
         ct += (f'<Override PartName="/xl/worksheets/sheet{f}.xml" ContentType="application/vnd.openxmlformats-officedocument.'
                'spreadsheetml.worksheet+xml"/>')
-        sheets.append(f'<sheet name="Sheet{chr(65 + i)}" sheetId="{i + 1}" r:id="rId{i + 1}"/>')
-        wrels.append((f"rId{i + 1}", REL + "/worksheet", f"worksheets/sheet{f}.xml", ""))
+        sid = (spec.get("sheet_ids") or list(range(1, n + 1)))[i]          # an identifier, not a position
+        srid = (spec.get("sheet_rids") or [f"rId{j + 1}" for j in range(n)])[i]
+        sheets.append(f'<sheet name="Sheet{chr(65 + i)}" sheetId="{sid}" r:id="{srid}"/>')
+        wrels.append((srid, REL + "/worksheet", f"worksheets/sheet{f}.xml", ""))
         drawing = '<drawing r:id="rId1"/>' if unit else ""
         sh = (f'<?xml version="1.0" encoding="UTF-8" standalone="yes"?><worksheet xmlns="{S}" xmlns:r="{REL}"><sheetData>'
               f'<row r="1"><c r="A1" t="inlineStr"><is><t>h{i}</t></is></c><c r="B1" t="inlineStr"><is><t>g</t></is></c></row>'
@@ -256,6 +265,8 @@ def build_xlsx(spec) -> bytes:
             members.append((dpart, (f'<?xml version="1.0" encoding="UTF-8" standalone="yes"?><xdr:wsDr xmlns:xdr="{XDR}" '
                                     f'xmlns:a="{A}" xmlns:r="{REL}">' + "".join(anchors) + '</xdr:wsDr>').encode()))
             members.append((f"xl/drawings/_rels/drawing{f}.xml.rels", _rels(rels)))
+    if spec.get("wb_rels_reversed"):
+        wrels.reverse()
     wb = (f'<?xml version="1.0" encoding="UTF-8" standalone="yes"?><workbook xmlns="{S}" xmlns:r="{REL}"><sheets>'
           + "".join(sheets) + '</sheets></workbook>')
     members = [("[Content_Types].xml", (ct + "</Types>").encode()),
@@ -386,6 +397,31 @@ def build(spec) -> bytes:
 
 
 # ------------------------------------------------------------------------------------ PDF
+def _run_length(data: bytes) -> bytes:
+    out = bytearray()
+    for k in range(0, len(data), 128):
+        chunk = data[k:k + 128]
+        out += bytes((len(chunk) - 1,)) + chunk
+    return bytes(out) + b"\x80"
+
+
+PDF_STAGE = {
+    "DCTDecode": lambda d: d,                                        # the JPEG file itself
+    "FlateDecode": lambda d: zlib.compress(d),
+    "ASCIIHexDecode": lambda d: d.hex().encode() + b">",
+    "ASCII85Decode": lambda d: __import__("base64").a85encode(d) + b"~>",
+    "RunLengthDecode": _run_length,
+}
+# how an embedded JPEG (or, for "flate-raw", 8-bit gray samples) is stored: the /Filter chain in decoding order
+PDF_ENCODINGS = {
+    "dct": ["DCTDecode"], "dct-array": ["DCTDecode"],
+    "flate+dct": ["FlateDecode", "DCTDecode"], "ahx+dct": ["ASCIIHexDecode", "DCTDecode"],
+    "a85+dct": ["ASCII85Decode", "DCTDecode"], "rl+dct": ["RunLengthDecode", "DCTDecode"],
+    "ahx+flate+dct": ["ASCIIHexDecode", "FlateDecode", "DCTDecode"], "a85+flate+dct": ["ASCII85Decode", "FlateDecode", "DCTDecode"],
+    "flate-raw": ["FlateDecode"],
+}
+
+
 def build_pdf(images: list[dict], pages: list[list[int]]) -> bytes:
     """Hand-written PDF 1.4.  images[i] = {"data": <JPEG bytes>, "w":.., "h":..} become image XObjects with
     /Filter /DCTDecode (the stream is the JPEG file, passed through unre-encoded); pages[k] lists the image indices
@@ -402,9 +438,17 @@ def build_pdf(images: list[dict], pages: list[list[int]]) -> bytes:
     img_obj = {}
     for i in sorted({i for p in pages for i in p}):
         im = images[i]
+        chain = PDF_ENCODINGS[im.get("enc", "dct")]
+        payload = im["data"]
+        for f in reversed(chain):                     # /Filter lists the stages in DECODING order
+            payload = PDF_STAGE[f](payload)
+        flt = (b"/" + chain[0].encode()) if im.get("enc", "dct") == "dct" or (len(chain) == 1 and not im.get("enc", "").endswith("array")) \
+            else b"[" + b" ".join(b"/" + f.encode() for f in chain) + b"]"
+        if im.get("filter_indirect"):                 # /Filter written as an indirect reference
+            flt = b"%d 0 R" % add(flt)
         img_obj[i] = add(b"<< /Type /XObject /Subtype /Image /Width %d /Height %d /ColorSpace /DeviceGray "
-                         b"/BitsPerComponent 8 /Filter /DCTDecode /Length %d >>\nstream\n" % (im["w"], im["h"], len(im["data"]))
-                         + im["data"] + b"\nendstream")
+                         b"/BitsPerComponent 8 /Filter %s /Length %d >>\nstream\n" % (im["w"], im["h"], flt, len(payload))
+                         + payload + b"\nendstream")
     kids = []
     for k, p in enumerate(pages, 1):
         ops = [b"BT /F1 12 Tf 72 720 Td (page %d) Tj ET" % k]
